@@ -118,6 +118,17 @@ def sanitizer_keys(stderr_text):
                         keys.append((k, "\n".join(lines[j:j + 14])))
                 j += 1
             if not seen:
+                # only indirect leaks (the lost objects reference each other): key them by the first block's allocation site
+                j = i + 1
+                while j < len(lines) and not seen:
+                    if re.match(r"^Indirect leak of", lines[j]):
+                        fr = _repo_frames(lines[j + 1:j + 40], 2)
+                        if fr:
+                            k = "lsan:%s" % ",".join(fr)
+                            seen.add(k)
+                            keys.append((k, "\n".join(lines[j:j + 14])))
+                    j += 1
+            if not seen:
                 keys.append(("lsan:?", "\n".join(lines[i:i + 30])))
             continue
         m = re.search(r"([\w\-\.]+\.[ch]):(\d+):(\d+): runtime error: (.*)", ln)
